@@ -162,7 +162,8 @@ def run(tier: str) -> int:
     with Workdir(PROP) as wd:
         cases = []
         for label, cs, nsl, slices in STAGE[tier]:
-            stages.model_check(chk, "Capa", cs, INVS, wd=wd, label="A:" + label)
+            cs_a = cs if cs["P"] <= 5 else dict(cs, NSlices=16, Slice=chk.seed % 16)     # P = 6: one slice in stage A
+            stages.model_check(chk, "Capa", cs_a, INVS, wd=wd, label="A:" + label)
             if slices is not None:
                 slices = sorted({(s + chk.seed) % nsl for s in slices})
             cases += stages.emit_cases(chk, "Capa", cs, wd=wd, label="B:" + label, nslices=nsl, slices=slices)
